@@ -126,3 +126,49 @@ def probe_reset_cases(rng, n):
         ops.append('op cpkt 0 %d %s %s' % (now, pipeline.rnd40(rng), hx(p2)))      # server 0 again if it answered
         out.append(('failback-%d' % k, cfg.conf_lines() + cfg.cfg_lines() + ops))
     return out
+
+def noserver_cases(rng, reps):
+    """C08: a matching realm without a usable server: ReplyMessage yes/no x AccountingResponse on/off x AccountingLog x request kind;
+    Access-Request gets a Reject only with a ReplyMessage, Accounting-Request a response only with AccountingResponse, else silence"""
+    out = []
+    k = 0
+    for rep in range(reps):
+        for msg in (None, b'no-such-realm'):
+            for accresp in (False, True):
+                for acclog in (False, True):
+                    cfg = _cfg1(rng)
+                    r = pipeline.Realm('dead.test'); r.msg = msg; r.accresp = accresp; r.acclog = acclog
+                    cfg.realms.insert(0, r)
+                    ops = []
+                    for i, code in enumerate((1, 4, 1, 4)):
+                        uname = b'bob@dead.test' if i < 2 else b'bob@example.com'
+                        pkt, _ = _req(rng, cfg, 0, code, ident=40 + i, uname=uname)
+                        ops.append('op cpkt 0 1000005 %s %s' % (pipeline.rnd40(rng), hx(pkt)))
+                    out.append(('noserver-%d' % k, cfg.conf_lines() + cfg.cfg_lines() + ops))
+                    k += 1
+    return out
+
+def reply_ttl_cases(rng, n):
+    """C13: AddTTL on the reply path: global / client / server values all different, replies with and without a TTL attribute"""
+    out = []
+    for k in range(n):
+        cfg = _cfg1(rng)
+        cfg.ttlattr = rng.choice([None, (27262, 1), (210, 256)])
+        cfg.addttl = rng.choice([0, 5])
+        cfg.clients[0].addttl = rng.choice([0, 7])
+        cfg.servers[0].addttl = rng.choice([0, 9])
+        t0, t1 = cfg.ttl()
+        ops = []
+        now = 1000005
+        for i, rcode in enumerate([2, 3, 5]):
+            code = 4 if rcode == 5 else 1
+            pkt, _ = _req(rng, cfg, 0, code, ident=30 + i, uname=b'bob@example.com')
+            ops.append('op cpkt 0 %d %s %s' % (now, pipeline.rnd40(rng), hx(pkt)))
+            ops.append('op wpass 0 %d %s' % (now, pipeline.rnd40(rng)))
+            attrs = ['18:' + hx(b'ok')] + (['80:auto'] if rcode != 5 else [])
+            if rng.random() < 0.3:
+                ttlv = bytes([0, 0, 0, rng.choice([0, 1, 2, 9])])
+                attrs.append(('26:' + hx(radius.vsa(t0, [(t1, ttlv)]))) if t1 != 256 else ('%d:%s' % (t0, hx(ttlv))))
+            ops.append('op sreply 0 %d %d %s %d - %s' % (i, now, pipeline.rnd40(rng), rcode, ' '.join(attrs)))
+        out.append(('replyttl-%d' % k, cfg.conf_lines() + cfg.cfg_lines() + ops))
+    return out
